@@ -441,8 +441,9 @@ func (p *MinQueriesPlanner) extractSelection(ctx *PlanningContext, config *extra
 
 				parentType: defn.TypeCondition,
 				selection:  defn.SelectionSet,
-				// Children should now be wrapped by this fragment and nothing else
-				wrapper: ast.SelectionSet{selection},
+				// Children should now be wrapped by this fragment as well, inside the wrappers we are already
+				// under: dropping those would lose the directives on the enclosing fragments
+				wrapper: append(append(ast.SelectionSet{}, config.wrapper...), selection),
 			})
 			if err != nil {
 				return nil, err
